@@ -52,6 +52,20 @@ CLAIMED = {
          'EINVAL/ENOENT and exactly one callback (none for the documented silent queries), leaves every getter unchanged, and that the index returned by vnacal_add_calibration is the one find/get_name honour.',
     note='Trusted: as C15/C05/C16/C10. Not every API function x validity class is covered: only those reached by these harnesses; I/O failures from the OS are outside.',
     design='DESIGN.md section 4 / C11'),
+ 'C09': dict(
+    technique='bounded symbolic execution of the real Touchstone loader over all short byte strings: clang-14 IR -> ll2c -> CBMC 6.11 with unwinding assertions (termination), getc/strtod stubs',
+    text='Bounded proof with CBMC for the Touchstone loader only: after each of 11 concrete prefixes (empty, "#", "# HZ ", "[VERSION] 2.0\\n#", "[NUMBER OF PORTS] 1\\n[REFERENCE] ", ...) EVERY following byte '
+         '(2 bytes in thorough) and then end of file makes _vnadata_load_touchstone terminate (unwinding assertions), stay memory-safe and leak-free, and either fail with -1 and a documented '
+         'errno plus a callback, or succeed with dimensions that fit the type.  NPD, vnacal_load and YAML import are NOT covered (libyaml is a binary; longer symbolic inputs do not finish).',
+    note='Trusted: clang, ll2c, CBMC; getc = buffer then EOF for ever; strtod/strtol return arbitrary values for the numeric prefix; vasprintf/ctype stubs. Inputs longer than prefix + 1..2 symbolic bytes are outside.',
+    design='DESIGN.md section 4 / C09'),
+ 'C12': dict(
+    technique='bounded fault injection under CBMC 6.11 (clang-14 IR -> ll2c with an allocation hook): the K-th allocation of one vnadata call fails, K and shapes enumerated, values symbolic',
+    text='Fault enumeration decided by CBMC on the real vnadata code: for objects prepared by init(shape1) in ordinary or per-frequency z0 mode, the K-th allocation (K = 0..7, 11 thorough) of a following '
+         'resize / init / set_fz0 / set_z0 / add_frequency fails: the call succeeds or returns -1 with ENOMEM and one callback, the logical state is as before, every getter works, repeating the call '
+         'without the fault gives the fault-free state, and vnadata_free leaves nothing allocated (CBMC leak check).  Only the vnadata family is covered.',
+    note='Trusted: clang, ll2c (every malloc/calloc/realloc routed through the hook), CBMC. vnaproperty / vnacal / vnacal_new allocations, libyaml/stdio allocations and multiple failures are outside; fault indices are enumerated, not symbolic.',
+    design='DESIGN.md section 4 / C12', category='fault_enumeration'),
  'C10': dict(
     technique='bounded symbolic model checking of the real range tests and interpolation kernels: clang-14 IR -> ll2c -> CBMC 6.11, IEEE-754 bit-precise comparisons (multiply/divide uninterpreted where stated)',
     text='Bounded proof with CBMC over the real code: (C10.a) the four range tests (check_single_frequency_range, vnacal_new_set_m_error, vnacal_get_parameter_value, '
@@ -100,7 +114,7 @@ m = {
  'checks': [
     {'property_id': pid, 'quick_cmd': '%s --tier quick' % c.get('cmd', './check %s' % pid), 'thorough_cmd': '%s --tier thorough' % c.get('cmd', './check %s' % pid),
      'evidence_file': 'evidence/%s.json' % pid, 'replay_cmd_template': './check --replay {path}', 'engine': 'irsym+z3' if pid in ('C04', 'C19') else ('ll2c+cbmc' if pid not in ('C13',) else 'cbmc-native'),
-     'level_claimed': {'category': 'proof', 'text': c['text'], 'design_ref': c['design']}, 'level_note': c['note'], 'technique': c['technique']}
+     'level_claimed': {'category': c.get('category', 'proof'), 'text': c['text'], 'design_ref': c['design']}, 'level_note': c['note'], 'technique': c['technique']}
     for pid, c in sorted(CLAIMED.items())],
  'notes': 'All checks regenerate their encoding from /repo\'s working tree on every run. Exit 0 = held within the stated bounds; exit 1 + VIOLATION line = '
           'solver counterexample reproduced natively (ASan/UBSan) against the unmodified sources; exit 2 = check incomplete/broken (timeout, vacuity witness '
